@@ -15,8 +15,8 @@ def SibLife (descs : List Desc) : Prop :=
   ∀ d ∈ descs, ∀ sid ∈ d.sibs, ∀ sd, findDesc descs sid = some sd → sd.life = d.life
 
 def EventNonSingleton (descs : List Desc) : Event → Prop
-  | .ctor d _ _ _ _ _ => ∀ x, findDesc descs d = some x → x.life ≠ .singleton
-  | .ctorFail d _ _ _ _ => ∀ x, findDesc descs d = some x → x.life ≠ .singleton
+  | .ctor d c _ _ _ _ => ∃ x, findDesc descs d = some x ∧ x.life ≠ .singleton ∧ x.ctor = c
+  | .ctorFail d c _ _ _ => ∃ x, findDesc descs d = some x ∧ x.life ≠ .singleton ∧ x.ctor = c
   | .closed _ _ _ => True
 
 /-- what a resolution running in scope `s` may change -/
@@ -161,7 +161,7 @@ theorem logEv_ext (st : State) (s : Nat) (e : Event) (he : EventNonSingleton st.
     ⟨[e], rfl, by intro x hx; simp at hx; subst hx; exact he⟩, Nat.le_refl _⟩
 
 theorem logCtor_ext (st : State) (s d c inv sc : Nat) (args : List Val) (outs : List Inst)
-    (h : ∀ x, findDesc st.descs d = some x → x.life ≠ .singleton) :
+    (h : ∃ x, findDesc st.descs d = some x ∧ x.life ≠ .singleton ∧ x.ctor = c) :
     Ext st (logEv st (.ctor d c inv sc args outs)) s := logEv_ext st s _ h
 
 theorem alloc_ext (st : State) (s k c n : Nat) : Ext st (alloc st k c n) s :=
@@ -259,10 +259,10 @@ theorem frame (beh : Beh) : ∀ fuel,
         · exact hA
         next args _ =>
           have hdescs1 : ra.1.descs = st.descs := hA.descs
-          have hev : ∀ (st' : State), st'.descs = st.descs → ∀ x, findDesc st'.descs d.id = some x → x.life ≠ .singleton := by
-            intro st' hst' x hx
-            rw [hst', wf.uniqueIds d hd] at hx
-            injection hx with hx; subst hx; exact hl
+          have hev : ∀ (st' : State), st'.descs = st.descs → ∃ x, findDesc st'.descs d.id = some x ∧
+              x.life ≠ .singleton ∧ x.ctor = d.ctor := by
+            intro st' hst'
+            exact ⟨d, by rw [hst']; exact wf.uniqueIds d hd, hl, rfl⟩
           have hA2 := hA.trans (bumpInv_ext ra.1 s d.ctor)
           have hd2 : (bumpInv ra.1 d.ctor).descs = st.descs := hdescs1
           have hsibs : ∀ sd ∈ d.sibs.filterMap (findDesc (bumpInv ra.1 d.ctor).descs), sd.life ≠ .singleton := by
